@@ -51,6 +51,16 @@ def run(ctx):
         else:
             r2.violation("attach_fdt: init_object_writer -> push_from_cache", "packets cached before the FDT are not replayed once the "
                                                                             "object can be decoded: a late joiner loses them", s.loc)
+    # blocks that were decoded before the writer existed are flushed right after the writer is opened: write_blocks(0, ..)
+    flush = set(s.bb for s in call_sites(f, lambda p, c: p == OR + "::write_blocks") if show(s.expr[2][1]) == "0")
+    for s in inits:
+        ok, w = fl.postdominated_by(s.bb, lambda b: b in flush)
+        key = "attach_fdt: init_object_writer -> write_blocks(0)"
+        if ok and flush:
+            r2.ok(key, "", s.loc)
+        else:
+            r2.violation(key, "source blocks completed before the FDT was attached (in-band OTI, late join) are never handed to the "
+                              "writer: write_blocks(0, ..) does not follow the opening of the writer; the object stays Receiving for ever", s.loc)
     parts = set(s.bb for s in call_sites(f, lambda p, c: p == OR + "::init_blocks_partitioning"))
     for s in inits:
         if parts and all(fl.dominates(pb, s.bb) for pb in parts):
@@ -96,7 +106,7 @@ def run(ctx):
         r2.ok("create_obj walks self.fdt_current", "", nxt[0].loc)
     else:
         r2.violation("create_obj walks self.fdt_current", "", loc(co.sp))
-    r2.floor(6, "pairings")
+    r2.floor(7, "pairings")
 
     r3 = ctx.rule("C16.R3", "objects_completed.insert happens only in check_object_state under the Completed arm of the object's state", "DOM+WMC")
     for s, ai, mut in calls_on_field(prog, RC, "objects_completed"):
@@ -114,3 +124,10 @@ def run(ctx):
         else:
             r3.violation(key, "an object that is not Completed can be registered as received", s.loc)
     r3.floor(1, "registry insert")
+
+    # ---- R4 the in-band OTI a late joiner decodes with is the sender's own partition ----------------------------
+    r4 = ctx.rule("C16.R4", "a late joiner that sees object packets before the FDT partitions the object from EXT_FTI alone: the Z / B the "
+                            "sender announces there come from the same block_partitioning(B, L, E) argument roles at every call site "
+                            "(sender encoder, sender FileDesc, receiver) - same analysis as C07.R1", "ARG")
+    from . import c07
+    c07.partition_call_agreement(ctx, r4)
